@@ -494,6 +494,9 @@ class Executor(Exec):
             u = self._uses(f"opaque.{name}")
             if u == "skip":
                 return None
+            if u is not None and u != "inline" and getattr(u, "effect", None) is not None:
+                from .engine import NS
+                return u.effect(self, NS({"args": list(args), "kwargs": dict(kwargs), "recv": recv}))
             raise OutOfSubset(f"method {name} on opaque value {recv.label}")
         return self.call_container_method(recv, name, args, kwargs)
 
